@@ -1047,9 +1047,9 @@ class CallMixin:
             v = (args[key] if isinstance(key, int) and key < len(args) else kwargs.get(key)) if not isinstance(key, str) or key in kwargs else None
             if isinstance(key, str):
                 v = kwargs.get(key)
-            if not isinstance(v, (VStr, VInt)) or (isinstance(v, VInt) and v.is_bv):
+            if v is None or (isinstance(v, VInt) and v.is_bv):
                 return None
-            acc = z3.Concat(acc, self.to_str(st, v).t)
+            acc = z3.Concat(acc, self.to_str(st, v).t)          # same conversion as the f-string replacement field `{v}`
         return VStr(z3.simplify(acc))
 
     def percent_template(self, st, template, arg):
